@@ -22,21 +22,42 @@ package retention
 //@   ensures result == nil ==> n1 == 1 && n2 == 1 && e1 == nil && e2 == nil
 
 // A refresh that could not fetch the durations reports an error.
+// ... and a refresh that reports success has offered EVERY fetched duration to the engine: a partition that is not
+// open on this node is skipped, it does not end the refresh (the shards listed after it would be judged by their old
+// duration in the deletion pass that follows).
 //@ func (*Service).updateShardDurationInfo
+//@   stable meta.ShardDurationResponse.Durations
 //@   ghost fetched bool = false
 //@   ghost fe Iface = nil
+//@   ghost total int = 0
+//@   ghost offered int = 0
 //@   call .GetShardDurationInfo
 //@     set fetched = true
 //@     set fe = ret1
+//@     set total = len(ret0.Durations)
+//@   call .UpdateShardDurationInfo
+//@     set offered = offered + 1
 //@   ensures result == nil ==> fetched && fe == nil
+//@   ensures [every_fetched_duration_offered] result == nil ==> offered == total
+//@   loop 1
+//@     invariant offered == rangeindex + 1 && offered <= total
 
 //@ func (*Service).UpdateIndexDurationInfo
+//@   stable meta.IndexDurationResponse.Durations
 //@   ghost fetched bool = false
 //@   ghost fe Iface = nil
+//@   ghost total int = 0
+//@   ghost offered int = 0
 //@   call .GetIndexDurationInfo
 //@     set fetched = true
 //@     set fe = ret1
+//@     set total = len(ret0.Durations)
+//@   call .UpdateIndexDurationInfo
+//@     set offered = offered + 1
 //@   ensures result == nil ==> fetched && fe == nil
+//@   ensures [every_fetched_duration_offered] result == nil ==> offered == total
+//@   loop 1
+//@     invariant offered == rangeindex + 1 && offered <= total
 
 // The deletion pass runs only after updateDurationInfo returned nil in this tick.
 //@ func (*Service).handle
